@@ -258,6 +258,7 @@ class Body:
         self._defs = None
         self._rd_in = None
         self._expr_memo = {}
+        self.promoted_of = promoted_of
         self._upvar_names = {}
         for u in raw.get("upvar_names", []):
             pl = u["pl"]
@@ -667,15 +668,30 @@ class Body:
             return self._expr_memo[key]
         args = tuple(self.operand_expr(a, bb, "term") for a in t["args"])
         c = t["callee"]
+        site = bb if self.promoted_of is None else ("promoted", self.promoted_of.promoted_index(self), bb)
         if "path" in c:
-            e = ("call", c["name"], c["path"], args, bb)
+            e = ("call", c["name"], c["path"], args, site)
         elif "closure" in c:
-            e = ("call", "<closure>", c["closure"], args, bb)
+            e = ("call", "<closure>", c["closure"], args, site)
         else:
             f = self.place_expr(c["pl"], bb, "term") if "pl" in c else ("unknown", "indirect")
-            e = ("call", "<indirect>", fmt(f), args, bb)
+            e = ("call", "<indirect>", fmt(f), args, site)
         self._expr_memo[key] = e
         return e
+
+    def promoted_index(self, pb):
+        for i, x in enumerate(self.promoted):
+            if x is pb:
+                return i
+        return -1
+
+    def site_term(self, site):
+        """terminator of the call a ('call', …, site) expression was built from"""
+        if isinstance(site, int):
+            return self.blocks[site]["term"]
+        if isinstance(site, tuple) and site and site[0] == "promoted":
+            return self.promoted[site[1]].blocks[site[2]]["term"]
+        return None
 
     def rvalue_expr(self, rv, bb, idx):
         k = rv["k"]
